@@ -113,6 +113,17 @@ def oracle_rx(P):
         respecting = True        # every arrival so far fitted the window advertised just before it
         last_win = None
         errored = False
+        mss = None
+        flushed_total = 0
+        expect_dw = False        # flush recorded less than one MSS of window: the connection task's waker is registered
+
+        def popped_bytes():
+            popped = 0
+            for i in sorted(stored):
+                if popped >= len(read):
+                    break
+                popped += len(stored[i]) // 2 if stored[i] != "-" else 0
+            return popped
 
         def hit(what, text):
             hits.append({"sig": {"oracle": "rx", "what": what}, "text": text})
@@ -132,6 +143,16 @@ def oracle_rx(P):
             if t[1] == "new":
                 cap = int(t[2])
                 last_win = cap
+                mss = int(t[3]) if len(t) > 3 else None
+                flushed_total, expect_dw = 0, False
+            elif t[1] == "flush" and res.startswith("flushed:"):
+                flushed_total += int(res.split(":")[1])
+                if mss is not None and cap - (flushed_total - popped_bytes()) < mss:
+                    expect_dw = True
+            elif t[1] == "dropr":
+                if expect_dw and int(kv.get("dw", 0)) == 0:
+                    hit("dispatcher_lost_wakeup", f"`{op}`: the reader went away after a window below one segment was recorded, but the connection task was not woken")
+                expect_dw = False
             elif t[1] == "arrive":
                 idx, ty = int(t[2]), int(t[3])
                 if ty == 0 and idx not in stored and last_win is not None and (len(t[4]) // 2 if t[4] != "-" else 0) > last_win:
@@ -162,6 +183,9 @@ def oracle_rx(P):
                 if res.startswith("err:"):
                     errored = True
                 if res.startswith("data:"):
+                    if expect_dw and int(kv.get("dw", 0)) == 0:
+                        hit("dispatcher_lost_wakeup", f"`{op}` freed receive buffer space after a window below one segment ({mss}) had been recorded, but the connection task was not woken: no window update will be sent")
+                    expect_dw = False
                     read += list(bytes.fromhex(res[5:]))
                     want = [pos_byte(i) for i in range(len(read))]
                     if read != want:
